@@ -259,3 +259,30 @@ func c07Alias(concurrent bool) {
 
 func VerifC07Alias()           { c07Alias(false) }
 func VerifC07AliasConcurrent() { c07Alias(true) }
+
+// VerifC07ConcurrentClose: two goroutines close the same subscope (and a third closes the
+// root) at the same time: nothing panics, everything recorded before is delivered once.
+func VerifC07ConcurrentClose() {
+	rec := &lockedReporter{}
+	root := newRootScope(ScopeOptions{Reporter: rec, OmitCardinalityMetrics: true, registryShardCount: 1}, 0)
+	v := verifrt.Int64("inc")
+	verifrt.Assume(v != 0)
+	s := root.Tagged(map[string]string{"k": "v"})
+	same := root.Tagged(map[string]string{"k": "v"})
+	s.Counter("x").Inc(v)
+	withRoot := verifrt.Choose("root-close-too", 2) == 1
+	var wg sync.WaitGroup
+	verifrt.Explore(2)
+	wg.Add(2)
+	go func() { defer wg.Done(); s.(io.Closer).Close() }()
+	go func() { defer wg.Done(); same.(io.Closer).Close() }()
+	if withRoot {
+		wg.Add(1)
+		go func() { defer wg.Done(); root.Close() }()
+	}
+	wg.Wait()
+	verifrt.StopExplore()
+	root.reportRegistry()
+	verifrt.Assert("c07.concurrent-close.delivered-exactly-once", sumNamed(&rec.vReporter, "x") == v)
+	verifrt.Reach("c07.concurrent-close.end")
+}
